@@ -310,7 +310,7 @@ def run(tier, seed):
         import traceback
         tb = traceback.format_exc()
         if 'could not mine a block' not in tb:
-            ck.disagree('node-level store scenario crashed: %s' % tb[-400:], {})
+            ck.disagree('node-level store scenario crashed: %s' % tb[-1800:], {})
     if r.ok:
         outs = model.run_batch(reqs)
         for (want, rp), o in zip(wants, outs):
